@@ -6,11 +6,12 @@
      with an absolute path): exact text-level result rds_impl for all inputs, and equality with the RFC target
      under the exact condition rds_exact (implied by "no empty segment except the last"); outside that condition
      the code departs from 5.2.4 -- witness C06_K_R2_witness, recorded class K_R2.
-   The merge branch (relative path with at least one segment) is carried by the correspondence run and the
-   independent RFC oracle (tools/spec.py): partial. *)
+   - the merge branch: exact text-level result merge_impl for all inputs (C06_merge_branch_exact) and totality of all
+     five branches (C06_resolve_total); the EQUALITY of merge_impl with 5.2.3 + 5.2.4 is not proved: it is carried
+     by the correspondence run and the independent RFC oracle (tools/spec.py): partial. *)
 From Coq Require Import List NArith Bool Arith.
 Import ListNotations.
-Require Import V.Regex V.Parse V.ParseProofs V.PathSpec V.Splice V.Setters V.SetPath V.Reference V.C05Proofs V.Rfc V.ResolveProofs V.NormProofs V.ResolveProofs2.
+Require Import V.Regex V.Parse V.ParseProofs V.PathSpec V.Splice V.Setters V.SetPath V.Reference V.C05Proofs V.Rfc V.ResolveProofs V.NormProofs V.ResolveProofs2 V.SetAuth V.SetScheme V.SymProofs V.ParentProofs V.ResolveProofs3.
 Local Open Scope nat_scope.
 
 Theorem C06_empty_path_branch_partial : forall (pb pr : parts) (s : str),
@@ -58,6 +59,29 @@ Theorem C06_K_R2_witness :
   compose (rfc_target K_R2_ref K_R2_ref) = [115;58;47;47;104;47;47]%N.
 Proof. vm_compute. split; reflexivity. Qed.
 Print Assumptions C06_K_R2_witness.
+
+(* the merge branch (no scheme, no authority, a relative path with at least one character): exact text-level result
+   of the index-level model for ALL well-formed inputs.  The code does not build the string of 5.2.3; it takes the
+   parent of the base path (parent_or_empty_text1: the text up to the last '/', "/./" for "//x"), normalises it in
+   place, pushes the segments of the reference one by one symbolically ('.' skipped, '..' pops, sym_append1) and
+   closes with an empty segment after a final dot segment; the result is written with set_path's disambiguation. *)
+Theorem C06_merge_branch_exact : forall (pb pr : parts) (s : str) (c : N) (t : str),
+  wf_parts pb -> wf_parts pr -> p_scheme pb = Some s -> p_scheme pr = None -> p_authority pr = None ->
+  p_path pr = c :: t -> is c SLASH = false ->
+  let p1 := with_scheme pr (Some s) (scheme_fix_path pr (Some s)) in
+  let p2 := with_auth p1 (p_authority pb) (auth_path p1 (p_authority pb)) in
+  resolve (compose pr) (compose pb) = Some (compose (with_path p2 (fix_path p2 (merge_impl pb pr s)))) /\
+  none_of [QM; HASH] (merge_impl pb pr s).
+Proof. intros pb pr s c t Wb Wr Hbs Hrs Hra Hp Hc. exact (resolve_merge pb pr s Wb Wr Hbs Hrs Hra c t Hp Hc). Qed.
+Print Assumptions C06_merge_branch_exact.
+
+(* all five branches together: resolution against a base that has a scheme never panics and returns a well-formed
+   reference whose authority is the reference's or the base's *)
+Theorem C06_resolve_total : forall (pb pr : parts) (s : str), wf_parts pb -> wf_parts pr -> p_scheme pb = Some s ->
+  exists p', resolve (compose pr) (compose pb) = Some (compose p') /\ wf_parts p' /\
+             (p_authority p' = p_authority pr \/ p_authority p' = p_authority pb).
+Proof. exact resolve_total. Qed.
+Print Assumptions C06_resolve_total.
 
 (* the 5.2.4 output is always a normal form: no ".", ".." only as a leading run of a relative path *)
 Theorem C06_rds_normal : forall ab l, normal ab (rds_segs ab l).
